@@ -31,6 +31,7 @@ def run(ctx):
                 'read back by Spec.X690.read; non-trivial = constructed/tagged type or a forced boundary')
     cases = codec.gen_cases(ctx, ctx.n(150, 3000), depth=3, any_der=True)
     cases += codec.leaf_boundary_cases(ctx, every=3 if ctx.tier == 'quick' else 1)
+    cases += codec.presence_grid_cases(ctx, every=2 if ctx.tier == 'quick' else 1)
     # SETs whose members are nested CHOICEs (untagged, or under an EXPLICIT tag of their own) with sibling tags in between
     from harness.props import c17 as _c17
     for T_, v_, _how in _c17.set_choice_cases(ctx, gen.Gen(ctx.rng), ctx.n(8, 150)):
